@@ -1405,9 +1405,17 @@ pub fn gen_case_on(rng: &mut Rng, opts: &GenOpts, coords: Vec<(f32, f32)>, edges
         // taken all the time and not once in 360 turns
         const BOUNDARY: [i16; 19] = [0, 19, 20, 44, 45, 134, 135, 159, 160, 180, 181, 200, 201, 225, 226, 315, 316, 340, 341];
         let boundary_mode = rng.chance(1, 3);
+        // one case in sixteen holds headings far outside [0, 360) — the loader accepts any i16 —, up to
+        // the ends of the i16 range, where a difference taken in i16 overflows
+        const EXTREME: [i16; 10] = [i16::MAX, i16::MIN, 32767 - 180, -32768 + 180, 16384, -16384, 720, -720, 361, -1];
+        let extreme_mode = !boundary_mode && rng.chance(1, 11);
         let headings = (0..n_e)
             .map(|_| {
-                if boundary_mode {
+                if extreme_mode && rng.chance(1, 2) {
+                    let a = *rng.pick(&EXTREME);
+                    let d = if rng.chance(1, 2) { None } else { Some(*rng.pick(&EXTREME)) };
+                    (a, d)
+                } else if boundary_mode {
                     let a = if rng.chance(1, 2) { 0 } else { *rng.pick(&BOUNDARY) };
                     let d = if rng.chance(1, 2) { None } else if rng.chance(1, 2) { Some(0) } else { Some(*rng.pick(&BOUNDARY)) };
                     (a, d)
